@@ -351,6 +351,8 @@ func (fr *Frame) applyContract(fc *FuncContract, key string, sig *types.Signatur
 	for _, en := range fc.Ensures {
 		g.sc.Assume(implies(c.reach, env.trBool(en.E)))
 	}
+	// crash points: the function under verification must keep its crash invariant at every durable step
+	fr.crashPoints(fc, env, old, c, site)
 	// vacuity guard after assumed contracts: the continuation must be reachable
 	if (fc.Extern || fc.AssumeOnly) && g.dry == 0 {
 		g.obls = append(g.obls, &Obligation{Name: fr.oname("cover@"+site, "after"), Kind: "cover", Func: g.fnName, Prefix: g.sc.Len(), Reach: c.reach, Goal: "true", Cover: true})
@@ -891,4 +893,45 @@ func (fr *Frame) execGo(ins *ssa.Go, c *blockCtx) {
 		g.setGhost(c.st, "$spawned", "Nil", "(+ "+cur.S+" 1)")
 	}
 	g.goStmts = append(g.goStmts, fmt.Sprintf("%s: go %s", funcKey(fr.fn), ins.Call.String()))
+}
+
+// crashPoints asserts the crashstates clauses of the function under verification at the crash points of a call:
+// after a durable step, and at the (abstract) crash points inside a callee that declares crashstates.
+func (fr *Frame) crashPoints(fc *FuncContract, env *Env, old *State, c *blockCtx, site string) {
+	g := fr.g
+	root := fr
+	for root.parent != nil {
+		root = root.parent
+	}
+	if root.contract == nil || len(root.contract.Crash) == 0 || (!fc.Durable && len(fc.Crash) == 0) {
+		return
+	}
+	assertOn := func(st *State, extra string, tag string) {
+		renv := root.baseEnv(st)
+		renv.old = root.entrySt
+		for i, cl := range root.contract.Crash {
+			label := cl.Label
+			if label == "" {
+				label = fmt.Sprint(i)
+			}
+			g.oblige("crash", fr.oname("crash@"+site+tag, label), and(c.reach, extra), renv.trBool(cl.E), cl.Src, false)
+		}
+	}
+	if len(fc.Crash) > 0 {
+		// an arbitrary crash point inside the callee: havoc its frame from the pre-state, assume its crashstates
+		tmp := old.clone()
+		tenv := *env
+		tenv.st = tmp
+		tenv.old = old
+		for _, loc := range fc.Modifies {
+			fr.havocLoc(&tenv, loc, tmp)
+		}
+		var hyps []string
+		for _, cl := range fc.Crash {
+			hyps = append(hyps, tenv.trBool(cl.E))
+		}
+		assertOn(tmp, and(hyps...), ":inside")
+	}
+	// the state after the call is itself a crash point
+	assertOn(c.st, "true", "")
 }
